@@ -49,7 +49,7 @@ def shards(tier, seed):
     out = []
     for func in FUNCS:
         for dtype in ("float64", "int64"):
-            for method in (None, "map-reduce", "cohorts"):
+            for method in (None, "map-reduce", "cohorts", "blockwise"):
                 for n in range(2, b["n_complete"] + 1):
                     nparts = {2: 1, 3: 1, 4: 2, 5: 8}[n]
                     for part in range(nparts):
@@ -103,6 +103,11 @@ def check_point(res, func, dtype, lab_tuple, chunks, method, split_every, bblock
     tags = dict(func=func, dtype=dtype, method=str(method), split_every=str(split_every), nblocks=len(chunks),
                 batch_blocks=bblocks)
     size = n * 10 + len(chunks)
+    if method == "blockwise":
+        codes = np.array([-1 if x != x else int(x) for x in lab_tuple])
+        if not e1.blockwise_layout_ok(codes, chunks)[0]:
+            res.outcomes["blockwise-precondition-unmet(not asserted)"] += 1
+            return
     if out.kind == "refused":
         res.outcomes[f"refused:{out.exc}"] += 1
         return
